@@ -8,8 +8,14 @@
 (* of hook H3: the controller releases exactly the actor of the next       *)
 (* action.                                                                 *)
 (* Callers and Workers are integers here (they become indices in JSON).    *)
-(* Receive is kept in the behaviour but needs no release of its own: the   *)
-(* real caller takes the result and unlocks without a gate in between.     *)
+(* Receive of an instant question needs no release of its own: the real    *)
+(* caller takes the result and unlocks without a gate in between. For a    *)
+(* range query Receive releases the slice goroutine, which cancels the     *)
+(* sibling slices when its result is an error. The `hit` field of the      *)
+(* StartRequest / EndErr labels says whether the caller was cancelled at   *)
+(* that point (then the request never leaves / is abandoned by the client).*)
+(* EndOk of a cancelled caller's request is excluded here: the replayed    *)
+(* server holds every answer, so a cancelled client cannot receive one.    *)
 (***************************************************************************)
 EXTENDS PromClientMC, Json
 
@@ -32,10 +38,10 @@ SWorker(w) ==
   \/ queue # <<>> /\ Do(Dequeue(w, Head(queue)), Lab("Dequeue", w, Head(queue).caller, Head(queue).key, FALSE))
   \/ wjob[w] # <<>> /\ Do(WLock(w, SliceKey(Job(w).key)), Lab("WLock", w, Job(w).caller, Job(w).key, FALSE))
   \/ wjob[w] # <<>> /\ Do(CacheGet(w), Lab("CacheGet", w, Job(w).caller, Job(w).key, Job(w).key \in DOMAIN cache))
-  \/ wjob[w] # <<>> /\ Do(StartRequest(w), Lab("StartRequest", w, Job(w).caller, Job(w).key, FALSE))
-  \/ wjob[w] # <<>> /\ Do(EndOk(w), Lab("EndOk", w, Job(w).caller, Job(w).key, FALSE))
-  \/ wjob[w] # <<>> /\ Do(EndErr(w), Lab("EndErr", w, Job(w).caller, Job(w).key, FALSE))
-  \/ wjob[w] # <<>> /\ Do(CacheSet(w), Lab("CacheSet", w, Job(w).caller, Job(w).key, FALSE))
+  \/ wjob[w] # <<>> /\ Do(StartRequest(w), Lab("StartRequest", w, Job(w).caller, Job(w).key, cancelled[Job(w).caller]))
+  \/ wjob[w] # <<>> /\ ~cancelled[Job(w).caller] /\ Do(EndOk(w), Lab("EndOk", w, Job(w).caller, Job(w).key, FALSE))
+  \/ wjob[w] # <<>> /\ Do(EndErr(w), Lab("EndErr", w, Job(w).caller, Job(w).key, cancelled[Job(w).caller]))
+  \/ wjob[w] # <<>> /\ Do(CacheSet(w, TTLOf[Job(w).key]), Lab("CacheSet", w, Job(w).caller, Job(w).key, FALSE))
   \/ wjob[w] # <<>> /\ Do(WUnlock(w, SliceKey(Job(w).key)), Lab("WUnlock", w, Job(w).caller, Job(w).key, FALSE))
   \/ wjob[w] # <<>> /\ Do(Send(w), Lab("Send", w, Job(w).caller, Job(w).key, FALSE))
 
